@@ -25,7 +25,12 @@ Decided structurally:
 R1-R3 are stated on *entries* of the two implicit-path deltas, however they get there (C10_helpers): `insert` calls
 reached through helpers / closures / unrolled table loops (lib/effects, branch decisions as guards), and the entries the
 deltas are constructed with (`LayerEnvDelta { entries: rows.iter().map(..).filter(..).flat_map(..).collect() }` placed in
-the returned LayerEnv; the predicates of the filtering stages as guards).
+the returned LayerEnv; the predicates of the filtering stages as guards).  An insert into a delta that a private helper
+creates, fills and returns (`layer_paths_build: LayerEnvDelta::from_rows(&[..])`) is an insert into the field the result
+of that call is stored in (C10_helpers.returned_into: object identity by creation site, exact — no alternatives); a
+helper's loop over a pipeline on its parameter is evaluated row by row on the caller's table.  Boolean closures written
+with branches (`a && b`) contribute every decision on the way to `true`; where a joined value hides one, the entry is
+opaque (UNPROVEN), never silently accepted.
 Not decided: what is_dir returns for each file-type assignment (kernel / std).
 """
 from . import layer_env_common as L
@@ -82,12 +87,16 @@ def run(ctx, rep):
     E2 = Effects(prog, sl, vocab={L.INSERT: ('INSERT', None)})
     ins = []
     leaks = []
+    ok_value = sl.mk_unwrap(sl.local(g, 0), 1)
     for e in E2.expand(g, 'may'):
         if e.kind != 'INSERT' or len(e.args) < 4:
             continue
         tgt = strip(e.args[0])
         fld = tgt[2] if tgt[0] == 'field' and tgt[2] in H.FIELDS else None
         levels = H.level_calls(e)
+        if fld is None:
+            # the delta a private helper creates, fills and returns, stored in an implicit-path field by the caller
+            fld = H.returned_into(prog, sl, g, ok_value, e.args[0], levels)
         if fld is None and not any(x[0] == 'field' and x[2] in H.FIELDS for x in walk(e.args[0])):
             # an insert into a delta that is being read from an env directory, not an implicit path — provided it does
             # happen inside the env directory reader: anything else read_from_layer_dir puts into an explicit delta
